@@ -3,9 +3,9 @@
 import ast
 
 from .. import AnalysisError, tables
-from ..canon import canon
+from ..canon import canon, single_assignments
 from ..pm import src, dotted
-from ..q import FA, attr_stores, call_name, guard_facts, is_self_attr, walk_no_nested
+from ..q import FA, attr_stores, call_name, guard_facts, is_self_attr, norm_args, walk_no_nested
 
 TECHNIQUE = "R-WRITERS/R-ORDER on the evaluation counter, R-CALLERS on the user likelihood, R-DOM on the unit-hypercube mapping, a structural grammar of order-preserving split/map/combine primitives over all six branches of batch_evaluate_function, R-SIB on the function/wrapper/vectorised-flag table; constant-bound rule on the probe tolerances"
 
@@ -26,8 +26,9 @@ def wrapper_table(ctx, clause):
     for name, (fn_, wrap, flag, meth, prop) in table.items():
         f = ctx.fn(f"{M}.{name}")
         c = FA(f).find_calls("batch_evaluate_function")[0][1]
-        kw = {k.arg: k.value for k in c.keywords}
-        ctx.ob("R-SIB", clause, f, f"evaluates {fn_} with its own wrapper {wrap} and its own vectorisation flag", src(c.args[0]) == fn_ and "func_wrapper" in kw and src(kw["func_wrapper"]) == wrap and len(c.args) >= 3 and src(c.args[2]) == flag, f"`{src(c)[:160]}`", node=c)
+        kw = _bef_args(c)
+        inl_ = single_assignments(f.node)
+        ctx.ob("R-SIB", clause, f, f"evaluates {fn_} with its own wrapper {wrap} and its own vectorisation flag", "func" in kw and src(kw["func"]) == fn_ and "func_wrapper" in kw and src(kw["func_wrapper"]) == wrap and "vectorised" in kw and canon(kw["vectorised"], inline=inl_) == canon(ast.parse(flag, mode="eval").body), f"`{src(c)[:160]}`", node=c)
         w = ctx.fn(f"{MP}:{wrap}")
         r = [n for n in walk_no_nested(w.node) if isinstance(n, ast.Return)]
         ctx.ob("R-SIB", clause, w, f"pool wrapper calls the same-named method of the global model on its argument", len(r) == 1 and src(r[0].value) == f"_model.{meth}({w.params()[0]})", f"`{src(r[0].value) if r else None}`")
@@ -36,7 +37,18 @@ def wrapper_table(ctx, clause):
         ctx.ob("R-SIB", clause, p, f"vectorisation of {meth} is detected by probing {meth} itself", len(probes) == 1 and src(probes[0].args[0]) == f"self.{meth}", f"`{src(probes[0])[:80] if probes else None}`")
         pool = kw.get("pool")
         want_pool = "self.pool" if name == "batch_evaluate_log_likelihood" else "self.pool if self.parallelise_prior else None"
-        ctx.ob("R-SIB", clause, f, "pool selection: likelihood always uses the pool, priors only when parallelise_prior", pool is not None and src(pool) == want_pool and "n_pool" in kw and src(kw["n_pool"]) == "self.n_pool", f"pool=`{src(pool)}`")
+        ok_pool = pool is not None and canon(pool, inline=inl_) == canon(ast.parse(want_pool, mode="eval").body)
+        if not ok_pool and pool is not None and name != "batch_evaluate_log_likelihood":
+            # the selection written as a statement: read the pool argument on every path to the call
+            from ..summ import summarise as _summ4, guard_texts as _gt4
+            seen_ = {}
+            for pa_ in _summ4(f.node):
+                calls_ = [x_ for x_ in ast.walk(pa_.ret) if isinstance(x_, ast.Call) and call_name(x_) == "batch_evaluate_function"] if pa_.ret is not None else []
+                calls_ += [e_[1] for e_ in pa_.effects if e_[0] == "call" and call_name(e_[1]) == "batch_evaluate_function"]
+                for c_ in calls_:
+                    seen_[dict(_gt4(pa_, canon)).get("self.parallelise_prior")] = canon(_bef_args(c_).get("pool")) if _bef_args(c_).get("pool") is not None else None
+            ok_pool = seen_ == {True: "self.pool", False: "None"}
+        ctx.ob("R-SIB", clause, f, "pool selection: likelihood always uses the pool, priors only when parallelise_prior", ok_pool and "n_pool" in kw and src(kw["n_pool"]) == "self.n_pool", f"pool=`{src(pool)}`")
 
 
 def run(ctx):
@@ -54,7 +66,13 @@ def run(ctx):
         ok = len(aug) == 1 and isinstance(fa.stmt(aug[0]).op, ast.Add) and fa.once(aug[0]) and fa.on_every_normal_path(aug[0])
         xname = f.params()[1]
         ctx.ob("R-ORDER", "C10.1", f, "counter is augmented exactly once on every path", ok, f"`{fa.text(aug[0]) if aug else None}`")
-        ctx.ob("R-ORDER", "C10.1", f, "counter grows by the number of points in the batch (x.size)", len(aug) == 1 and src(fa.stmt(aug[0]).value) == f"{xname}.size", f"`{fa.text(aug[0]) if aug else None}`")
+        # the increment is the size of the batch: x.size / len(x) / x.shape[0], directly or through a local bound once
+        # to it (the unit-hypercube mapping re-binds x to an array of the same length)
+        inc_ = fa.stmt(aug[0]).value if len(aug) == 1 else None
+        if isinstance(inc_, ast.Name):
+            defs_ = [s_.value for s_ in walk_no_nested(f.node) if isinstance(s_, ast.Assign) and len(s_.targets) == 1 and isinstance(s_.targets[0], ast.Name) and s_.targets[0].id == inc_.id]
+            inc_ = defs_[0] if len(defs_) == 1 else inc_
+        ctx.ob("R-ORDER", "C10.1", f, "counter grows by the number of points in the batch (x.size)", inc_ is not None and src(inc_) in (f"{xname}.size", f"len({xname})", f"{xname}.shape[0]"), f"`{fa.text(aug[0]) if aug else None}`")
     # the callables handed to the batch evaluator do not count
     for q in (M + ".log_likelihood", MP + ":log_likelihood_wrapper"):
         f = ctx.fn(q)
@@ -90,37 +108,49 @@ def run(ctx):
         # every other path (unit_hypercube false) reaches the call with x unchanged: no other assignment to x
         others = fa.find(lambda s: isinstance(s, (ast.Assign, ast.AugAssign)) and any(isinstance(t, ast.Name) and t.id == x for t in (s.targets if isinstance(s, ast.Assign) else [s.target])))
         ctx.ob("R-DOM", "C10.2", f, "unit-hypercube inputs are mapped to physical points before evaluation, and only then", okm and others == maps, f"mapping statements {[fa.text(m) for m in others]}")
-        ctx.ob("R-DOM", "C10.2", f, "the (possibly mapped) batch itself is what is evaluated", len(calls[0][1].args) >= 2 and src(calls[0][1].args[1]) == x, f"`{src(calls[0][1])[:100]}`")
+        ctx.ob("R-DOM", "C10.2", f, "the (possibly mapped) batch itself is what is evaluated", src(_bef_args(calls[0][1]).get("x")) == x, f"`{src(calls[0][1])[:100]}`")
     f = ctx.fn(M + ".batch_evaluate_log_prior_unit_hypercube")
     c = FA(f).find_calls("batch_evaluate_function")
-    ctx.ob("R-DOM", "C10.2", f, "unit-hypercube prior is evaluated on the unit-hypercube points directly", len(c) == 1 and src(c[0][1].args[1]) == f.params()[1] and not any(isinstance(n, ast.Call) and call_name(n) == "self.from_unit_hypercube" for n in walk_no_nested(f.node)), "")
+    ctx.ob("R-DOM", "C10.2", f, "unit-hypercube prior is evaluated on the unit-hypercube points directly", len(c) == 1 and src(_bef_args(c[0][1]).get("x")) == f.params()[1] and not any(isinstance(n, ast.Call) and call_name(n) == "self.from_unit_hypercube" for n in walk_no_nested(f.node)), "")
     ctx.floor("C10.2", 5)
 
     # ---- C10.3 order-preserving primitives --------------------------------------
     bf = ctx.fn(MP + ":batch_evaluate_function")
     fa = FA(bf)
-    rets = fa.find(lambda s: isinstance(s, ast.Return))
-    ctx.require(len(rets) == 1 and isinstance(fa.stmt(rets[0]).value, ast.Name), "batch_evaluate_function: expected a single `return <result variable>`")
-    outname = fa.stmt(rets[0]).value.id
-    outs = fa.find(lambda s: isinstance(s, ast.Assign) and isinstance(s.targets[0], ast.Name) and s.targets[0].id == outname)
-    ctx.ob("R-ORDER", "C10.3", bf, "every branch (pool x vectorised x chunksize) produces a result", fa.cfg.every_exit_path_passes(fa.cfg.entry, outs), f"{len(outs)} result assignments")
-    seen_cfg = set()
-    for nid in outs:
-        st = fa.stmt(nid)
-        facts = sorted({(src(e), t) for e, t in guard_facts(fa, nid)})
-        has_pool = ("pool is None", False) in facts
-        ok, why = order_preserving(st.value, has_pool)
-        seen_cfg.add(tuple(facts))
-        ctx.ob("R-SIB", "C10.3", bf, f"branch {[f'{a}={b}' for a, b in facts]}: split / map / combine are order-preserving and cover the whole batch", ok, f"`{src(st.value)}`: {why}", node=st)
-    ctx.ob("R-SIB", "C10.3", bf, "all six configurations have their own branch", len(seen_cfg) == 6, f"{len(seen_cfg)} distinct guard sets")
+    # read from the path summaries: for every configuration (pool x vectorised x chunksize) the returned expression,
+    # with locals substituted - whatever the arrangement of branches, early returns and temporaries
+    from ..summ import summarise as _summ10, guard_texts as _gt10
+    paths10 = [pa_ for pa_ in _summ10(bf.node) if pa_.end != "raise"]
+    ctx.ob("R-ORDER", "C10.3", bf, "every branch (pool x vectorised x chunksize) produces a result", bool(paths10) and all(pa_.end == "return" and pa_.ret is not None and not (isinstance(pa_.ret, ast.Constant) and pa_.ret.value is None) for pa_ in paths10), f"{len(paths10)} paths")
+    seen_cfg = {}
+    for pa_ in paths10:
+        g_ = dict(_gt10(pa_, canon))
+        has_pool = g_.get("pool is None") is False
+        cfgkey = (has_pool, g_.get("vectorised"), g_.get("chunksize") if g_.get("vectorised") else None)
+        ok, why = order_preserving(pa_.ret, has_pool) if pa_.ret is not None else (False, "no result")
+        if cfgkey in seen_cfg and seen_cfg[cfgkey][0] == ok:
+            continue
+        seen_cfg[cfgkey] = (ok, why, pa_.ret)
+    for cfgkey, (ok, why, ret_) in sorted(seen_cfg.items(), key=lambda kv: str(kv[0])):
+        ctx.ob("R-SIB", "C10.3", bf, f"configuration pool={cfgkey[0]}, vectorised={cfgkey[1]}, chunked={cfgkey[2]}: split / map / combine are order-preserving and cover the whole batch", ok, f"`{src(ret_)[:110] if ret_ is not None else None}`: {why}")
+    ctx.ob("R-SIB", "C10.3", bf, "all six configurations have their own branch", len(seen_cfg) == 6, f"{sorted(map(str, seen_cfg))}")
     bad = [src(n) for n in walk_no_nested(bf.node) if isinstance(n, ast.Attribute) and n.attr in ("imap_unordered", "map_async", "apply_async", "imap", "starmap_async", "apply")]
     ctx.ob("R-SIB", "C10.3", bf, "no unordered / asynchronous pool primitive is used", not bad, f"{bad}")
     wf = fa.find(lambda s: isinstance(s, ast.Assign) and isinstance(s.targets[0], ast.Name) and s.targets[0].id == "func_wrapper")
     okw = len(wf) == 1 and src(fa.stmt(wf[0]).value) == "func" and any(src(e) == "func_wrapper is None" and t for e, t in guard_facts(fa, wf[0]))
     ctx.ob("R-SIB", "C10.3", bf, "without a wrapper the pool maps the function itself", okw, "")
     sp = ctx.fn("nessai.utils.structures:array_split_chunksize")
-    r = [n for n in walk_no_nested(sp.node) if isinstance(n, ast.Return)]
-    ctx.ob("R-SIB", "C10.3", sp, "chunking is np.array_split at multiples of the chunk size (contiguous, ordered, complete)", len(r) == 1 and canon(r[0].value) == "array_split(x, range(chunksize, len(x), chunksize))", f"`{src(r[0].value) if r else None}`")
+    r = [pa_ for pa_ in _summ10(sp.node) if pa_.end == "return"]
+    rv_ = canon(r[0].ret) if len(r) == 1 else None
+    # (a) np.array_split at the multiples of the chunk size; (b) consecutive slices x[s:s+c] for s = 0, c, 2c, ... < len(x)
+    idiom_a = rv_ == "array_split(x, range(chunksize, len(x), chunksize))"
+    idiom_b = False
+    if rv_ is not None and not idiom_a:
+        for X_ in ("x", "asanyarray(x)", "asarray(x)"):
+            for N_ in ("len(x)", "max(1, len(x))", "max(len(x), 1)"):
+                if rv_ == canon(ast.parse(f"[{X_}[s:s + chunksize] for s in range(0, {N_}, chunksize)]", mode="eval").body, rename={"s": "start"}) or rv_ == canon(ast.parse(f"[{X_}[start:start + chunksize] for start in range(0, {N_}, chunksize)]", mode="eval").body):
+                    idiom_b = True
+    ctx.ob("R-SIB", "C10.3", sp, "chunking is np.array_split at multiples of the chunk size, or consecutive slices of that width (contiguous, ordered, complete)", idiom_a or idiom_b, f"`{rv_}`")
     ctx.floor("C10.3", 10)
 
     wrapper_table(ctx, "C10.4")
@@ -176,18 +206,31 @@ def _parent_call(fnode, node):
     return None
 
 
+def _bef_args(call):
+    """{parameter name: expression} of a batch_evaluate_function call, positional or keyword."""
+    sig = ["func", "x", "vectorised", "chunksize", "func_wrapper", "pool", "n_pool"]
+    try:
+        from ..canon import SIGNATURES
+        sig = SIGNATURES.get("batch_evaluate_function") or sig
+    except Exception:
+        pass
+    out = {sig[i]: a for i, a in enumerate(call.args) if i < len(sig)}
+    out.update({k.arg: k.value for k in call.keywords if k.arg})
+    return out
+
+
 def order_preserving(e, has_pool):
     """Structural grammar:  combine := np.concatenate(M) | np.array(M).flatten() | F(x)
        M := list(M) | map(F, S) | pool.map(F, S) | [F(v) for v in S]
        S := array_split_chunksize(x, chunksize) | np.array_split(x, n_pool) | x"""
-    F_ok = ("func_wrapper",) if has_pool else ("func",)
+    F_ok = ("func_wrapper", "func") if has_pool else ("func",)
 
     def S(n):
         if isinstance(n, ast.Name) and n.id == "x":
             return True, "x"
-        if isinstance(n, ast.Call) and call_name(n) == "array_split_chunksize" and [src(a) for a in n.args] == ["x", "chunksize"]:
+        if isinstance(n, ast.Call) and call_name(n) == "array_split_chunksize" and [src(a) for a in norm_args(n)] == ["x", "chunksize"]:
             return True, "chunks"
-        if isinstance(n, ast.Call) and call_name(n) in ("np.array_split", "numpy.array_split") and [src(a) for a in n.args] == ["x", "n_pool"] and not n.keywords:
+        if isinstance(n, ast.Call) and call_name(n) in ("np.array_split", "numpy.array_split") and [src(a) for a in norm_args(n)] == ["x", "n_pool"] and len(norm_args(n)) == len(n.args) + len(n.keywords):
             return True, "split"
         return False, f"`{src(n)}` is not a recognised order-preserving split of x"
 
